@@ -37,4 +37,6 @@ VARIANTS = [
     V("N-times-star-reciprocal", S, "        end_time = end_time / recording.time_expansion\n\n    geometry", "        end_time = end_time * (1 / recording.time_expansion)\n\n    geometry", None),
     V("N-key-mapping-in-test", L, "        key = key_mapping.get(label, key)", "        if label in key_mapping:\n            key = key_mapping[label]", None),
     V("N-handler-raise-bare", Q, "            raise e", "            raise", None),
+    # wave 6: the codec the labels are made with
+    V("key-from-term-name(C01/R01.7)", "src/soundevent/data/compat.py", "def key_from_term(term: Term) -> str:\n    return term.label", "def key_from_term(term: Term) -> str:\n    return term.name", "C01/R01.7"),
 ]
